@@ -76,8 +76,8 @@ def expmv(f, v, t=1., tol=1e-12, ncv=10, hermitian=False, normalize=False, retur
             Further parameters that are passed to :func:`expand_krylov_space` and :func:`add`.
     """
     backend = v.config.backend
-    ncv_max = min([30, v.size])  # Krylov space parameters
-    ncv = max(1, min(ncv, ncv_max))  # ncv above ncv_max would stall the controller after a rejected step
+    ncv = max(1, ncv)  # Krylov space parameters
+    ncv_max = max(ncv, min([30, v.size]))  # not below ncv: a basis of ncv vectors could not shrink after a rejected step
     t_now, t_out = 0, abs(t)
     sgn = t / t_out if t_out > 0 else 0
     tau = t_out  # initial quess for a time-step
@@ -101,6 +101,7 @@ def expmv(f, v, t=1., tol=1e-12, ncv=10, hermitian=False, normalize=False, retur
         lenV = len(V)
         V, H, happy = v.expand_krylov_space(f, tol, ncv, hermitian, V, H, **kwargs)
         info['krylov_steps'] += len(V) - lenV + happy
+        ncv_max = max(ncv_max, min(30, V[-1].size))  # f may populate blocks that are absent in v
 
         if happy:
             tau = t_out - t_now
